@@ -17,12 +17,12 @@
     parse error.  [-c], [eval] and the standard-input front-end parse through the memoised
     [Shell::parse_string] (Cache.Lru), script files and [source] through the plain parser. *)
 From BV Require Import Base.Prelude Cache.Lru Modes.Classes Modes.Complete.
-From BV Require gen.IncompleteTables.
+From BV Require gen.C15Incomplete.
 
 Inductive flow := FNormal | FExit | FReturn | FLoop.
 
 (** regenerated obligation: the floor of [execute_line]'s line count is at most one line *)
-Lemma floor_le_one : (gen.IncompleteTables.line_count_floor <= 1)%nat.
+Lemma floor_le_one : (gen.C15Incomplete.line_count_floor <= 1)%nat.
 Proof. vm_compute. lia. Qed.
 
 Section Modes.
